@@ -352,11 +352,32 @@ func (m *Machine) runBlockFrom(fr *frame, skipPhis int) {
 		switch x := in.(type) {
 		case *ssa.If:
 			c := m.get(fr, x.Cond).(*Term)
-			if !c.IsConst() && os.Getenv("NOIFCONV") == "" && m.tryIfConvert(fr, b, c) {
+			from, st, se := b, b.Succs[0], b.Succs[1]
+			if !c.IsConst() && !noIfConv {
+				c, from, st, se = m.fuseShortCircuit(fr, b, c)
+				if !c.IsConst() && m.tryIfConvert(fr, from, c, st, se) {
+					return
+				}
+			}
+			if from != b {
+				fr.prev = from
+				if m.ex.Branch(c, m.posStr(x.Pos())+" (fused)") {
+					fr.block = st
+				} else {
+					fr.block = se
+				}
 				return
 			}
 			fr.prev = b
-			if m.ex.Branch(c, m.posStr(x.Pos())) {
+			where := m.posStr(x.Pos())
+			if where == "?" {
+				if cv, ok := x.Cond.(ssa.Instruction); ok && cv.Pos().IsValid() {
+					where = m.posStr(cv.Pos())
+				} else {
+					where = fnName(fr.fn) + "#" + fmt.Sprint(b.Index)
+				}
+			}
+			if m.ex.Branch(c, where) {
 				fr.block = b.Succs[0]
 			} else {
 				fr.block = b.Succs[1]
@@ -1493,10 +1514,137 @@ func (m *Machine) specRun(fr *frame, b *ssa.BasicBlock) (stores []pendingStore, 
 	return stores, true
 }
 
-func (m *Machine) tryIfConvert(fr *frame, b *ssa.BasicBlock, c *Term) bool {
-	t, e := b.Succs[0], b.Succs[1]
+var noIfConv = os.Getenv("NOIFCONV") != ""
+
+func hasPhi(b *ssa.BasicBlock) bool {
+	if len(b.Instrs) == 0 {
+		return false
+	}
+	_, ok := b.Instrs[0].(*ssa.Phi)
+	return ok
+}
+
+// pureCondBlock: a block with one predecessor that only computes scalars (no store, no call) and ends in an If.
+func pureCondBlock(x *ssa.BasicBlock) (*ssa.If, bool) {
+	if len(x.Preds) != 1 || len(x.Instrs) == 0 || len(x.Instrs) > 12 {
+		return nil, false
+	}
+	iff, ok := x.Instrs[len(x.Instrs)-1].(*ssa.If)
+	if !ok {
+		return nil, false
+	}
+	for _, in := range x.Instrs[:len(x.Instrs)-1] {
+		switch y := in.(type) {
+		case *ssa.FieldAddr, *ssa.DebugRef:
+		case *ssa.UnOp:
+			if y.Op == token.MUL {
+				if _, ok := y.Type().Underlying().(*types.Basic); !ok {
+					return nil, false
+				}
+			} else if y.Op != token.NOT && y.Op != token.SUB && y.Op != token.XOR {
+				return nil, false
+			}
+		case *ssa.BinOp:
+			if y.Op == token.QUO || y.Op == token.REM {
+				return nil, false
+			}
+			if bt, ok := y.X.Type().Underlying().(*types.Basic); !ok || bt.Info()&(types.IsInteger|types.IsBoolean) == 0 {
+				return nil, false
+			}
+		case *ssa.Convert:
+			bt, ok1 := y.Type().Underlying().(*types.Basic)
+			bf, ok2 := y.X.Type().Underlying().(*types.Basic)
+			if !ok1 || !ok2 || bt.Info()&types.IsInteger == 0 || bf.Info()&types.IsInteger == 0 {
+				return nil, false
+			}
+		default:
+			return nil, false
+		}
+	}
+	return iff, true
+}
+
+// fuseShortCircuit recognises the control flow the SSA builder emits for `if a && b` / `if a || b`
+// (a second, side-effect-free condition block sharing one target with the first) and fuses the two tests into
+// one condition, so that a conjunction that folds to a constant does not fork and one that does not forks once.
+// Returns the fused condition, the block control then leaves from, and the true/false targets.
+func (m *Machine) fuseShortCircuit(fr *frame, b *ssa.BasicBlock, c *Term) (*Term, *ssa.BasicBlock, *ssa.BasicBlock, *ssa.BasicBlock) {
+	from, t, e := b, b.Succs[0], b.Succs[1]
+	for depth := 0; depth < 4; depth++ {
+		var nb *ssa.BasicBlock
+		and := false
+		if iff, ok := pureCondBlock(t); ok && t != from && t.Succs[1] == e && !hasPhi(e) {
+			nb, and = t, true
+			_ = iff
+		} else if iff, ok := pureCondBlock(e); ok && e != from && e.Succs[0] == t && !hasPhi(t) {
+			nb = e
+			_ = iff
+		}
+		if nb == nil {
+			break
+		}
+		iff := nb.Instrs[len(nb.Instrs)-1].(*ssa.If)
+		// speculative evaluation of the pure block
+		ok := func() (ok bool) {
+			defer func() {
+				if r := recover(); r != nil {
+					switch r.(type) {
+					case *GoPanic, *PathEnd, *Inconclusive:
+						ok = false
+					default:
+						panic(r)
+					}
+				}
+			}()
+			save := fr.prev
+			fr.prev = from
+			defer func() { fr.prev = save }()
+			for _, in := range nb.Instrs[:len(nb.Instrs)-1] {
+				switch y := in.(type) {
+				case *ssa.DebugRef:
+				case *ssa.UnOp:
+					if y.Op == token.MUL {
+						a, isCell := m.get(fr, y.X).(*Value)
+						if !isCell || a == nil {
+							return false
+						}
+						fr.env.put(y, copyVal(*a))
+					} else {
+						fr.env.put(y, m.unop(fr, y))
+					}
+				default:
+					m.instr(fr, in)
+				}
+			}
+			return true
+		}()
+		if !ok {
+			break
+		}
+		c2, isT := m.get(fr, iff.Cond).(*Term)
+		if !isT {
+			break
+		}
+		if and {
+			c = And(c, c2)
+			t = nb.Succs[0]
+		} else {
+			c = Or(c, c2)
+			e = nb.Succs[1]
+		}
+		from = nb
+		if c.IsConst() {
+			break
+		}
+	}
+	return c, from, t, e
+}
+
+func (m *Machine) tryIfConvert(fr *frame, b *ssa.BasicBlock, c *Term, t, e *ssa.BasicBlock) bool {
 	var thenB, elseB, join *ssa.BasicBlock
-	single := func(x *ssa.BasicBlock) bool { return len(x.Preds) == 1 && len(x.Succs) == 1 && simpleBlock(x) }
+	// an arm may have other predecessors (the shared "then" block of `a || b`): it contains no phi
+	// (simpleBlock rejects them), so running it from b is exactly what the taken edge would do
+	single := func(x *ssa.BasicBlock) bool { return len(x.Succs) == 1 && x != b && simpleBlock(x) }
 	switch {
 	case single(t) && t.Succs[0] == e:
 		thenB, join = t, e
